@@ -127,7 +127,7 @@ theorem drain_err (b : Bytes) (e : String) (h : decode b = .err e) : drain b = (
   split <;> simp_all
 
 theorem drain_panic (b : Bytes) (e : String) (h : decode b = .panic e) :
-    drain b = ([.error ("PANIC " ++ e)], none) := by
+    drain b = ([.panic e], none) := by
   rw [drain]
   split <;> simp_all
 
